@@ -130,8 +130,9 @@ def run_validator(data):
     state = I.State(_output_picture_callback=lambda *a: None)
     try:
         try:
-            I.decoder.init_io(state, io.BytesIO(data))
-            I.decoder.parse_stream(state)
+            with Watchdog(30):
+                I.decoder.init_io(state, io.BytesIO(data))
+                I.decoder.parse_stream(state)
             verdict, exc = "accept", None
         except I.decoder.ConformanceError as e:
             verdict, exc = "conformance:" + type(e).__name__, e
@@ -142,6 +143,31 @@ def run_validator(data):
         I.tds.ld_slice, I.tds.hq_slice = o_ld, o_hq
     cap["verdict"], cap["exc"] = verdict, exc
     return cap
+
+
+class Watchdog(object):
+    """raise TimeoutError inside the block after `seconds` (main thread only; otherwise no limit): a broken parser
+    that desynchronises can loop over ~2^32 slices"""
+    def __init__(self, seconds):
+        self.seconds = seconds
+
+    def __enter__(self):
+        import signal
+        import threading
+        self.active = threading.current_thread() is threading.main_thread()
+        if self.active:
+            def handler(signum, frame):
+                raise TimeoutError("no result after %ss" % self.seconds)
+            self.old = signal.signal(signal.SIGALRM, handler)
+            signal.setitimer(signal.ITIMER_REAL, self.seconds)
+        return self
+
+    def __exit__(self, *a):
+        import signal
+        if self.active:
+            signal.setitimer(signal.ITIMER_REAL, 0)
+            signal.signal(signal.SIGALRM, self.old)
+        return False
 
 
 # ----------------------------------------------------------------------------- deserialiser, instrumented
@@ -160,11 +186,12 @@ def run_deserialiser(data):
     exc = None
     try:
         r = I.bs.BitstreamReader(io.BytesIO(data))
-        with I.bs.Deserialiser(r) as des:
-            try:
-                I.bsvc2.parse_stream(des, I.State())
-            except Exception as e:
-                exc = e
+        with Watchdog(20):
+            with I.bs.Deserialiser(r) as des:
+                try:
+                    I.bsvc2.parse_stream(des, I.State())
+                except Exception as e:
+                    exc = e
         context = des.context
     except Exception as e:  # context verification at exit
         exc, context = e, None
@@ -496,8 +523,33 @@ def repack_description(rng, seq, cf):
     return seq
 
 
-def gen_streams(ctx, n):
-    """yield (label, config description, bytes)"""
+def corpus_streams():
+    """byte streams serialised ONCE from the unmodified tree (corpus/C08/streams.jsonl): they stay fixed when the
+    serialiser -- which shares bitstream/vc2.py with the deserialiser under test -- changes"""
+    import os
+    import json
+    import vlib
+    path = os.path.join(vlib.VERIF, "corpus", "C08", "streams.jsonl")
+    out = []
+    if os.path.exists(path):
+        for line in open(path):
+            line = line.strip()
+            if line:
+                j = json.loads(line)
+                out.append((j["label"], j["config"], bytes.fromhex(j["hex"])))
+    return out
+
+
+def gen_streams(ctx, n, corpus=True):
+    """yield (label, config description, bytes): the fixed corpus first, then freshly generated streams"""
+    if corpus:
+        for item in corpus_streams():
+            yield item
+    for item in gen_fresh_streams(ctx, n):
+        yield item
+
+
+def gen_fresh_streams(ctx, n):
     I = impl()
     C = I.common
     rng = ctx.rng
@@ -520,14 +572,14 @@ def gen_streams(ctx, n):
             if kw["profile"] == "hq" and rng.random() < 0.4:
                 kwargs["minimum_slice_size_scaler"] = rng.choice([2, 3, 5])
             seq = I.encoder.make_sequence(cf, pics, *pat, **kwargs)
-            variant = rng.choice(["plain", "inplace", "inplace", "desc"]) if kw["profile"] == "hq" else rng.choice(["plain", "inplace", "inplace"])
-            if variant == "desc":
+            variant = rng.choice(["plain", "inplace", "inplace", "desc", "desc+inplace"]) if kw["profile"] == "hq" else rng.choice(["plain", "inplace", "inplace"])
+            if "desc" in variant:
                 seq = repack_description(rng, seq, cf)
             seqs = [seq]
             if rng.random() < 0.15:  # two sequences in one stream
                 seqs.append(I.encoder.make_sequence(cf, [C.random_picture(cf, rng) for _ in range(npics)]))
             data = C.serialise(seqs)
-            if variant == "inplace":
+            if "inplace" in variant:
                 v = run_validator(data)
                 if v["verdict"] != "accept":
                     ctx.note("encoder output not accepted (%s) for %r" % (v["verdict"], desc))
@@ -700,13 +752,16 @@ def run(ctx):
         "content hash.  correspondence: slices (<= 96 bytes) cut from those streams + truncated/random mutants through both Coq slice readers.")
     import time
     t0 = time.time()
-    n_streams = ctx.pick(200, 3000)
-    max_corr = ctx.pick(420, 6000)
+    n_streams = ctx.pick(110, 3000)
+    max_corr = ctx.pick(380, 6000)
     slice_cases = []   # (p, sx, sy, bytes)
     seen_slices = set()
     accepted = 0
     import hashlib
     for label, desc, data in gen_streams(ctx, n_streams):
+        if len(ctx.violations) >= 6:
+            ctx.note("stopped generating streams after 6 violations")
+            break
         status, fails, info = compare_stream(data)
         if status != "checked":
             ctx.count(1, bucket="not-accepted:" + status.split(":", 1)[1])
@@ -717,7 +772,10 @@ def run(ctx):
         v = info["validator"]
         nontrivial = any(any(any(any(x != 0 for x in row) for row in arr) for lv in pic["arrays"][c].values() for arr in lv.values())
                          for pic in v["pictures"] for c in COMPS)
-        ctx.count(1, key=hashlib.sha1(data).hexdigest()[:16] if nontrivial else None, bucket=label)
+        ctx.count(1, key=hashlib.sha1(data).hexdigest()[:16] if nontrivial else None, bucket=label.replace("corpus:", ""))
+        if label.startswith("corpus:"):
+            ctx.count(0, bucket="(of which fixed corpus streams)")
+            ctx.distribution["(of which fixed corpus streams)"] = ctx.distribution.get("(of which fixed corpus streams)", 0) + 1
         if accepted <= 3:
             ctx.sample({"label": label, "config": desc, "bytes": len(data), "pictures": len(v["pictures"]), "slices": len(v["slices"])})
         for key, descr, obs, exp in fails:
